@@ -437,8 +437,13 @@ func Build(s *Spec) (*Archive, error) {
 	}
 	a.CDSize = w.pos() - a.CDOffset
 	n := uint64(len(order))
-	if a.CDOffset >= 0xFFFFFFFF || a.CDSize >= 0xFFFFFFFF || n >= 0xFFFF {
+	if a.CDOffset >= 0xFFFFFFFF || a.CDSize >= 0xFFFFFFFF {
 		return nil, errors.New("zipgen: archive really needs ZIP64 (not supported)")
+	}
+	// exactly 65535 entries still fit the classic end record (CPython writes it that
+	// way); more need the ZIP64 records with a saturated classic count
+	if n > 0xFFFF && !(s.Zip64EOCD && s.Zip64Saturate) {
+		return nil, errors.New("zipgen: more than 65535 members need Zip64EOCD with Zip64Saturate")
 	}
 
 	if s.Zip64EOCD {
